@@ -190,6 +190,23 @@ func runCheckFinality(ctx *action.Context, tx action.RawTx) (bool, action.Respon
 			}
 			return true, action.Response{Log: "Redeem Tracker Failed"}
 		}
+		// the ERC20 trackers fail like the native ones: without these branches the vote that crossed
+		// the threshold was not even saved, the tracker stayed in the ongoing store for ever and a
+		// rejected ERC20 redeem was never refunded
+		if tracker.Type == trackerlib.ProcessTypeLockERC {
+			err := failedLock(ctx, tracker, *f)
+			if err != nil {
+				return false, action.Response{Log: errors.Wrap(err, "unable to finalize lock ERC TX").Error()}
+			}
+			return true, action.Response{Log: "Lock ERC Tracker Failed"}
+		}
+		if tracker.Type == trackerlib.ProcessTypeRedeemERC {
+			err := refundERC20Tokens(ctx, tracker, *f)
+			if err != nil {
+				return false, action.Response{Log: errors.Wrap(err, "unable to refund tokens").Error()}
+			}
+			return true, action.Response{Log: "Redeem ERC Tracker Failed"}
+		}
 		return true, action.Response{Log: "Tracker has enough votes to be Failed , Tracker Type Unknown"}
 	}
 
@@ -255,6 +272,44 @@ func refundTokens(ctx *action.Context, tracker *trackerlib.Tracker, oltTx Report
 	err = ctx.Balances.AddToAddress(ethSupply, oEthRefundCoin)
 	if err != nil {
 		return errors.New("Unable to update total Eth supply")
+	}
+	return nil
+}
+
+//Process token Refund if Validators could not sign an ERC20 redeem (mirror of refundTokens)
+func refundERC20Tokens(ctx *action.Context, tracker *trackerlib.Tracker, oltTx ReportFinality) error {
+	ctx.Logger.Info("Failing Tracker  [ Token Refund ]| Process Type : ", tracker.Type.String())
+	tracker.State = trackerlib.Failed
+	err := ctx.ETHTrackers.WithPrefixType(trackerlib.PrefixOngoing).Set(tracker)
+	if err != nil {
+		return errors.Wrap(err, "unable to Fail tracker")
+	}
+	ethOpt, err := ctx.GovernanceStore.GetETHChainDriverOption()
+	if err != nil {
+		return gov.ErrGetEthOptions
+	}
+	redeemParams, err := ethereum.ParseERC20RedeemParams(tracker.SignedETHTx, ethOpt.ERCContractABI)
+	if err != nil {
+		return errors.Wrap(action.ErrInvalidExtTx, err.Error())
+	}
+	token, err := ethereum.GetToken(ethOpt.TokenList, redeemParams.TokenAddress)
+	if err != nil {
+		return err
+	}
+	c, ok := ctx.Currencies.GetCurrencyByName(token.TokName)
+	if !ok {
+		return errors.New("Token not registered")
+	}
+	refundCoin := c.NewCoinFromAmount(*balance.NewAmountFromBigInt(redeemParams.Amount))
+	err = ctx.Balances.AddToAddress(tracker.ProcessOwner, refundCoin)
+	if err != nil {
+		ctx.Logger.Error(err)
+		return errors.Errorf("Unable to refund token : %s", token.TokName)
+	}
+	tokenSupply := keys.Address(ethOpt.TotalSupplyAddr)
+	err = ctx.Balances.AddToAddress(tokenSupply, refundCoin)
+	if err != nil {
+		return errors.Errorf("Unable to update totalSupply for token : %s", token.TokName)
 	}
 	return nil
 }
